@@ -8,9 +8,33 @@
 struct IdHash { static size_t hash(size_t k) { return k; } static bool equal(size_t a, size_t b) { return a == b; } };
 using M = tbb::concurrent_hash_map<size_t, int, IdHash>;
 static std::map<std::string, unsigned long long> in;
+#include <thread>
+#include <atomic>
+#include <chrono>
+// an element may not be destroyed (and erase may not return) while another thread's accessor points to it
+static bool erase_vs_holder(std::string& why) {
+    for (int kind = 0; kind < 2; ++kind) for (int by_accessor = 0; by_accessor < 2; ++by_accessor) {
+        M m; for (size_t i = 0; i < 100; ++i) m.insert({i, (int)i});
+        std::atomic<bool> holding{false}, released{false};
+        std::thread holder([&] {
+            if (kind == 0) { M::const_accessor a; m.find(a, 42); holding = true; std::this_thread::sleep_for(std::chrono::milliseconds(150)); released = true; a.release(); }
+            else { M::accessor a; m.find(a, 42); holding = true; std::this_thread::sleep_for(std::chrono::milliseconds(150)); released = true; a.release(); }
+        });
+        while (!holding) std::this_thread::yield();
+        bool ok;
+        if (by_accessor) { if (kind == 1) { holder.join(); continue; }   // a second accessor cannot be obtained while a writer holds the element
+                           M::const_accessor mine; m.find(mine, 42); ok = m.erase(mine); }
+        else ok = m.erase((size_t)42);
+        bool early = !released.load();
+        holder.join();
+        if (early) { why = std::string("erase(") + (by_accessor ? "const_accessor" : "key") + ") of an element returned " + (ok ? "true" : "false") + " - the element was unlinked and destroyed - while another thread still held a" + (kind == 0 ? " const_accessor" : "n accessor") + " pointing to it"; return true; }
+    }
+    return false;
+}
 int main(int argc, char** argv) {
     std::string job = argc > 1 ? argv[1] : "";
     for (int i = 2; i < argc; ++i) { char* e = std::strchr(argv[i], '='); if (e) in[std::string(argv[i], e - argv[i])] = std::strtoull(e + 1, 0, 0); }
+    { std::string why; if (job.rfind("erase", 0) == 0 && erase_vs_holder(why)) { std::printf("REPRODUCED class=element-destroyed-under-accessor %s\n", why.c_str()); return 0; } }
     M m; for (size_t i = 0; i < 5000; ++i) m.insert({i, 0});        // table of 8192 buckets, mask 0x1FFF
     using B = tbb::detail::d2::hash_map_base<tbb::tbb_allocator<std::pair<const size_t, int>>, tbb::spin_rw_mutex>;
     B& b = (B&)m;   // private base: C-style cast
